@@ -21,6 +21,7 @@ RULE = ("every charge pattern of length <= Lp (quick 7, thorough 8) with random 
 RULE += ("; added after the mutation rounds: numpy-integer and default windows; 300-residue poly-K chains with windows 127..257; empty and repeated user groups; history salt; the first cases of every shard are judged again at its end")
 RULE += ("; round 5: user groups of 9-20 residues")
 RULE += ("; round 6: string groups that read as words")
+RULE += ("; round 7: profile getters asked in shuffled order with repeats; 9-14 user groups")
 EXHAUSTIVE = {"quick": False, "thorough": False}
 EXHAUSTIVE_NOTE = {"quick": "all patterns of length <= 7 x all windows 1..N+3", "thorough": "all patterns of length <= 8 x all windows 1..N+3"}
 ASSUMPTIONS = [
@@ -30,7 +31,7 @@ ASSUMPTIONS = [
     "window 0 / negative / non-integer windows are outside the quantifier (1 <= w) and not driven",
 ]
 REQUIRED = {"all": ["salted_objects", "w_eq_1", "w_eq_N", "w_gt_N_rejected", "even_windows", "odd_windows", "delta_link_checked",
-                    "user_groups", "default_groups", "invalid_group_rejected", "histidine_windows", "default_window_calls", "numpy_int_windows", "windows_ge_128_sequences", "empty_user_groups", "repeated_user_groups", "more_than_1000_windows", "user_groups_larger_than_half_the_alphabet"]}
+                    "user_groups", "default_groups", "invalid_group_rejected", "histidine_windows", "default_window_calls", "numpy_int_windows", "windows_ge_128_sequences", "empty_user_groups", "repeated_user_groups", "more_than_1000_windows", "user_groups_larger_than_half_the_alphabet", "profile_calls_in_shuffled_order", "more_than_10_user_groups"]}
 LP = {"quick": 7, "thorough": 8}
 NRANDOM = {"quick": 500, "thorough": 3000}
 DEFAULT_GROUPS = ["ED", "RK", "RKED", "QNSTGHC", "ALMIV", "FYW", "P"]
@@ -134,7 +135,12 @@ def judge(case, rep, S):
                 rep.cnt("w_eq_1")
             if "H" in seq:
                 rep.cnt("histidine_windows")
-            for name, fn, stat in fns:
+            order = list(fns)
+            if rng.random() < 0.6:
+                rng.shuffle(order)             # the profiles are independent questions: any order, some asked twice
+                order = order + [rng.choice(order)]
+                rep.cnt("profile_calls_in_shuffled_order")
+            for name, fn, stat in order:
                 try:
                     form = rng.random()
                     if w == 5 and form < 0.34:
@@ -238,7 +244,9 @@ def check_composition(rep, S, obj, seq, w, rng):
             rep.viol("raised:composition", "get_linear_sequence_composition(%d) raised %s: %s on %s" % (w, type(e).__name__, e, seq))
             return
     else:
-        k = rng.randint(1, 5)
+        k = rng.randint(1, 5) if rng.random() < 0.85 else rng.randint(9, 14)
+        if k > 10:
+            rep.cnt("more_than_10_user_groups")
         groups = []
         arg = []
         for gi in range(k):
